@@ -94,7 +94,33 @@ ADDED = {
  "C18-r6b": "law-idxdet: indexes of 70 - 200 stanzas with a slow-failing damaged stanza right in front of a fast-failing one, 25 calls under GOMAXPROCS 1 / 4 / 8 / 16",
  "C19-r6a": "source names whose concatenations collide (ab + c = a + bc)",
  "C20-r6a": "files listed only in Checksums-Sha256 / Checksums-Sha1 (an empty or missing Files field) present next to the control file",
+ "C03-r7a": "every version entry point (Parse, UnmarshalControl, UnmarshalText) reads the same text the same way, incl. white space around it",
+ "C07-r7b": "armor header lines and other look-alikes inside field values (line-text pool)",
+ "C08-r7a": "values with bytes that are no UTF-8 (Latin-1 names) and characters ending in 0x85 / 0xA0",
+ "C08-r7b": "empty-valued fields; WriteTo, Marshal and an Encoder must write a paragraph the same way",
+ "C09-r7b": "multiline text with empty lines in front, in the middle and at the end",
+ "C10-r7a": "typed documents with non-ASCII continuation lines (last byte 0x85 / 0xA0)",
+ "C10-r7b": "continuation lines whose text starts with '#' off the first column",
+ "C11-r7a": "law-clearsig-reader: the caller's bufio.Reader reset / drained after NewParagraphReader returned",
+ "C12-r7b": "a finished verifier that is still written to while the next one of the same algorithm is open",
+ "C14-r7a": "payloads that do not compress (5 - 70 KiB), read after Load through both entry points",
+ "C14-r7b": "tar members with V7 (pre-POSIX) headers",
+ "C15-r7a": "the magics of related archive formats (GNU thin, AIX big / small, other spellings)",
+ "C16-r7a": "debian-binary with lines after the first: added, changed or removed after signing",
+ "C16-r7b": "a dpkg-sig style clearsigned manifest made with a keyring key, control / data member swapped under another extension",
+ "C17-r7b": "readers that deliver their last bytes together with io.EOF (iotest.DataErrReader, gzip.Reader)",
+ "C18-r7a": "signed-zero and empty epochs (-0:1, -00:1.2, +0:1, :1) in every version stream incl. the concurrent one",
+ "C19-r7a": "the same sources decoded from one stream into a slice, then ordered",
+ "C20-r7a": "law-upload-xdev: the destination on another file system (rename fails with EXDEV)",
 }
+FIRST7 = {}
+try:
+    for l in open("/verif/seeded/r7-first-run.txt"):
+        f = l.split()
+        if len(f) > 1:
+            FIRST7[f[0]] = f[1]
+except FileNotFoundError:
+    pass
 FIRST6 = {}
 try:
     for l in open("/verif/seeded/r6-first-run.txt"):
@@ -123,6 +149,8 @@ def row(m):
         first = {"detected": FIRST5[name] == "VIOLATION"}
     if name in FIRST6:
         first = {"detected": FIRST6[name] == "VIOLATION"}
+    if name in FIRST7:
+        first = {"detected": FIRST7[name] == "VIOLATION"}
     if first is None or first.get("detected"):
         fr = "detected on the first run"
         if first and name in ADDED:
@@ -177,6 +205,16 @@ declared sizes, long histories).  Run against the machinery as it was before the
 `Filename` field in a .dsc / .changes / control document moved the handle the *File entry points return: /repo 4a3d482,
 DESIGN.md 11.3).  After the extensions in the last column: 38 detected.
 
-""" + table("r6") + "\n"
+""" + table("r6") + """
+
+## Seventh round: "different in kind from everything tried before"
+
+Forty more.  Each author got, next to the property, one line per earlier change for that property (218 of them)
+and was asked for something different in kind: other parts of the code, other entry points, other input classes.
+First run (`r7-first-run.txt`; the machinery as committed before the round, except that three classes had been
+added before the last ten changes were evaluated): 22 detected, 18 missed.  After the extensions in the last column:
+40 detected.
+
+""" + table("r7") + "\n"
 open("/verif/seeded/README.md", "w").write(readme)
 print("README written")
